@@ -14,6 +14,7 @@ pub mod c10;
 pub mod c11;
 pub mod c12;
 pub mod c13;
+pub mod c14;
 pub mod c15;
 pub mod c19;
 pub mod c20;
@@ -22,9 +23,34 @@ pub mod c17;
 pub mod c18;
 
 pub fn all() -> Vec<Box<dyn Property>> {
-    vec![Box::new(c01::C01), Box::new(c02::C02), Box::new(c03::C03), Box::new(c04::C04), Box::new(c05::C05), Box::new(c06::C06), Box::new(c07::C07), Box::new(c08::C08), Box::new(c09::C09), Box::new(c10::C10), Box::new(c11::C11), Box::new(c12::C12), Box::new(c13::C13), Box::new(c15::C15), Box::new(c16::C16), Box::new(c17::C17), Box::new(c18::C18), Box::new(c19::C19), Box::new(c20::C20)]
+    vec![Box::new(c01::C01), Box::new(c02::C02), Box::new(c03::C03), Box::new(c04::C04), Box::new(c05::C05), Box::new(c06::C06), Box::new(c07::C07), Box::new(c08::C08), Box::new(c09::C09), Box::new(c10::C10), Box::new(c11::C11), Box::new(c12::C12), Box::new(c13::C13), Box::new(c14::C14), Box::new(c15::C15), Box::new(c16::C16), Box::new(c17::C17), Box::new(c18::C18), Box::new(c19::C19), Box::new(c20::C20)]
 }
 
 pub fn by_id(id: &str) -> Option<Box<dyn Property>> {
     all().into_iter().find(|p| p.id() == id)
+}
+
+/// which property's oracle owns an operation name (used by the C14 router and the fuzz target)
+pub fn owner_of_op(op: &str) -> Option<Box<dyn Property>> {
+    let id = match op {
+        "addsub.u" | "addsub.i" | "addsub.us" | "addsub.is" => "C01",
+        "mul.u" | "mul.i" | "mul.s" => "C02",
+        "div.u" | "div.i" | "div.us" => "C03",
+        "hist" | "ctor" => "C04",
+        "modpow.u" | "modpow.i" | "modinv.u" | "modinv.i" => "C05",
+        "tostr" | "toradix" | "parse" | "fromradix" | "fmt" => "C06",
+        "bitop.i" | "bitop.u" | "shift.i" | "shift.u" | "bit" => "C07",
+        "toprim.u" | "toprim.i" | "fromprim.i" | "fromprim.u" | "tofloat" | "fromf64" | "fromf32" => "C08",
+        "export.u" | "export.i" | "import.bytes" | "import.words" | "iter" => "C09",
+        "bigbig" | "scalar" | "scalar.u" | "shiftpow" | "sumprod" => "C10",
+        "root" => "C11",
+        "pow" => "C12",
+        "gcd.i" | "gcd.u" => "C13",
+        "failset" => "C14",
+        "bits" | "range" | "chacha" => "C18",
+        "value" | "pair" | "abs_sub" | "tables" => "C19",
+        "ser" | "de" => "C17",
+        _ => return None,
+    };
+    by_id(id)
 }
